@@ -104,7 +104,12 @@ int
 __wrap_close(int fd)
 {
 
-	if (fd >= 20 && fd < NFD && fd_open[fd]) {
+	/* descriptors 0..NFD-1 are scripted ones: never touch the real descriptor of that number (0 is our stdin) */
+	if (fd >= 0 && fd < NFD) {
+		if (!fd_open[fd]) {
+			errno = EBADF;
+			return (-1);
+		}
 		fd_open[fd] = 0;
 		conn_outcome[fd] = 0;
 		conntracelen += (size_t)sprintf(conntrace + conntracelen, "close%d,", fd);
@@ -215,7 +220,6 @@ __wrap_send(int fd, const void * buf, size_t len, int flags)
 	struct ans * a;
 	size_t k;
 
-	(void)flags;
 	if (qempty(Q)) { tr(NFD + fd, "%ld>%ld,", (long)len, -1L); errno = EAGAIN; return (-1); }
 	progress = 1;
 	a = &Q->a[Q->head++];
@@ -238,7 +242,7 @@ __wrap_send(int fd, const void * buf, size_t len, int flags)
 	case A_INTR:
 		tr(NFD + fd, "%ld>%ld,", (long)len, -1L); errno = EINTR; return (-1);
 	default:
-		tr(NFD + fd, "%ld>%ld,", (long)len, -1L); errno = EPIPE; return (-1);
+		tr(NFD + fd, "%ld>%ld,", (long)len, -1L); hc_epipe(flags); errno = EPIPE; return (-1);
 	}
 }
 
@@ -334,6 +338,8 @@ reset_all(void)
 {
 	int fd;
 
+	if (C.cookie) network_connect_cancel(C.cookie);
+	C.cookie = NULL;
 	for (fd = 0; fd < NFD; fd++) {
 		if (R[fd].cookie) network_read_cancel(R[fd].cookie);
 		if (W[fd].cookie) network_write_cancel(W[fd].cookie);
@@ -349,7 +355,6 @@ reset_all(void)
 		conn_outcome[fd] = 0;
 		fd_open[fd] = 0;
 	}
-	if (C.cookie) network_connect_cancel(C.cookie);
 	free_sas();
 	memset(&C, 0, sizeof(C));
 	nextfd = 20;
@@ -477,6 +482,11 @@ main(void)
 				}
 				printf(C.cookie ? "ok" : "fail");
 			}
+		} else if (hc_is("fdbase", 1)) {
+			/* the next socket() returns this descriptor (0 = a daemon that has closed its stdin) */
+			nextfd = atoi(hc_tok[1]);
+			if (nextfd < 0 || nextfd >= NFD) nextfd = 20;
+			printf("ok");
 		} else if (hc_is("cancelc", 0)) {
 			if (C.cookie) { network_connect_cancel(C.cookie); C.cookie = NULL; printf("ok"); }
 			else printf("none");
